@@ -1131,8 +1131,14 @@ def _rand_pred(rnd, sizes):
 def c12_closed_search(rp, seed):
     rnd = random.Random(seed)
     sizes = [len(x) for x in rp["game"]]
-    for _ in range(300):
-        r2 = dict(rp, game=_rand_pred(rnd, sizes))
+    for k in range(300):
+        gm = _rand_pred(rnd, sizes)
+        if k % 3 == 0:
+            # value-identical teams (e.g. new players)
+            for i in range(1, len(sizes)):
+                if sizes[i] == sizes[0] and rnd.random() < 0.7:
+                    gm[i] = gm[0]
+        r2 = dict(rp, game=gm)
         try:
             bad, msg = c12_closed(r2)
         except Exception:  # noqa: BLE001
@@ -1749,3 +1755,22 @@ def c14_alias_search(rp, seed):
         if bad:
             return r2, msg
     return None
+
+
+@checker("c20_idsource")
+def c20_idsource(rp):
+    """ids must not be a function of re-seedable global state"""
+    import random as _r
+    name = rp["model"]
+    m = mk_model(name, None)
+    ids = []
+    for _ in range(3):
+        _r.seed(12345)
+        try:
+            import numpy as _np   # noqa: F401
+            _np.random.seed(12345)
+        except Exception:  # noqa: BLE001
+            pass
+        ids.append((m.rating().id, m.create_rating([1.0, 2.0]).id))
+    flat = [x for t in ids for x in t]
+    return len(set(flat)) != len(flat), f"{name}: ids of ratings created after re-seeding the global random state: {ids}"
